@@ -162,6 +162,8 @@ pub struct CloneSpec {
     pub buffered: Option<usize>,
     pub retries: Option<u32>,
     pub verbose: bool,
+    /// Further options passed as they are (--http-timeout N, --http-header H, ...).
+    pub extra: Vec<String>,
 }
 
 pub fn clone_args(c: &CloneSpec) -> Vec<String> {
@@ -198,6 +200,7 @@ pub fn clone_args(c: &CloneSpec) -> Vec<String> {
         a.push(s("--http-retry-count"));
         a.push(r.to_string());
     }
+    a.extend(c.extra.iter().cloned());
     a.push(c.archive.clone());
     a.push(p(&c.output));
     a
